@@ -4,8 +4,13 @@
    (b) `FwdProto`: a small machine for ONE forwarded HTLC at node B (upstream A–B, downstream B–C):
    what B has been told by C / the chain, which `ChannelMonitorUpdate`s B has handed to `chain::Watch`
    and which of them are durable, and B's own upstream actions (guarded).
+   (c) `outcome`: the admission decision for EVERY next-hop kind (real channel / phantom SCID / intercept SCID /
+   unknown SCID), composed from the GENERATED translations of can_forward_htlc_should_intercept and its callees
+   (Generated/Forward.lean), and what the node then offers downstream (directly, or when an intercepted HTLC is
+   released at its `expected_outbound_amount_msat`).
    No Mathlib; everything is a total computable function (the driver links natively). -/
 import LdkModel.Generated.Timing
+import LdkModel.Generated.Forward
 namespace Ldk.Forward
 open Ldk
 
@@ -278,5 +283,110 @@ def downClaimable (s : St) : Bool :=
     fulfilled upstream, it pays `outAmt` iff C claimed (or still can) -/
 def deltaWorst (inAmt outAmt : Nat) (s : St) : Int :=
   (if s.up == .fulfilSent then (inAmt : Int) else 0) - (if downClaimable s then (outAmt : Int) else 0)
+
+/-! ## (c) admission for every next-hop kind -/
+open Ldk.FwdGen
+
+/-- what the onion's outgoing SCID resolves to at the forwarding node -/
+inductive NextHop where
+  /-- one of our funded channels (`short_to_chan_info` has the SCID): `do_funded_channel_callback` finds it -/
+  | chan (c : ChanView)
+  /-- not ours, `fake_scid::is_valid_phantom` -/
+  | phantom
+  /-- not ours, `fake_scid::is_valid_intercept` (from `get_intercept_scid`) -/
+  | interceptScid
+  /-- not ours and in neither namespace -/
+  | unknown
+  deriving Repr, DecidableEq
+
+def NextHop.chan? : NextHop → Option ChanView
+  | .chan c => some c
+  | _ => none
+def NextHop.isPhantom : NextHop → Bool
+  | .phantom => true
+  | _ => false
+def NextHop.isIntercept : NextHop → Bool
+  | .interceptScid => true
+  | _ => false
+
+/-- the node-wide settings the admission code reads (`UserConfig::htlc_interception_flags`,
+    `UserConfig::accept_forwards_to_priv_channels`) -/
+structure NodeCfg where
+  interceptFlags : Nat
+  acceptPriv : Bool
+  deriving Repr, DecidableEq
+
+/-- the inbound `update_add_htlc` (`amount_msat`, `cltv_expiry`, whether its channel is announced) and the forward
+    payload of its onion (`short_channel_id`, `amt_to_forward`, `outgoing_cltv_value`) -/
+structure Htlc where
+  prevPublic : Bool
+  scid : Nat
+  inAmt : Nat
+  inCltv : Nat
+  outAmt : Nat
+  outCltv : Nat
+  deriving Repr, DecidableEq
+
+/-- mirrors `can_forward_htlc_should_intercept(msg, prev_chan_public, next_hop)` (generated) for the given resolution
+    of the SCID; `best` is `best_block.height`.  `ok true` = surface as `HTLCIntercepted`. -/
+def admitHop (n : NodeCfg) (best : Nat) (hop : NextHop) (h : Htlc) : Except FailReason Bool :=
+  canForwardHtlcShouldIntercept n.interceptFlags n.acceptPriv best hop.chan? hop.isIntercept hop.isPhantom
+    h.prevPublic h.scid h.inAmt h.inCltv h.outAmt h.outCltv
+
+inductive Outcome where
+  /-- failed back with this reason (`HTLCHandlingFailed`) -/
+  | reject (r : FailReason)
+  /-- queued for the outgoing channel: `update_add_htlc` of (amt, cltv) is offered downstream -/
+  | forward (amt cltv : Nat)
+  /-- `Event::HTLCIntercepted { inbound_amount_msat, expected_outbound_amount_msat, outgoing_htlc_expiry_block_height }` -/
+  | intercepted (inbound expected expiry : Nat)
+  /-- handed to the receive pipeline as a payment to our phantom node: credited (amt, cltv) -/
+  | phantomRecv (amt cltv : Nat)
+  deriving Repr, DecidableEq
+
+/-- mirrors `process_pending_update_add_htlcs` for a `Hop::Forward` after `can_accept_incoming_htlc`: admission, then
+    `get_pending_htlc_info` → `create_fwd_pending_htlc_info` (generated `fwdPendingInfo`), then intercept
+    (`create_htlc_intercepted_event`, generated) or `forward_htlcs`; a forward to a phantom SCID is decoded in
+    `process_pending_htlc_forwards` and goes through `create_recv_pending_htlc_info(.., outgoing_amt_msat,
+    outgoing_cltv_value, .., best_block.height)` whose expiry test is the generated `finalExpiryTooSoon` (the inner
+    phantom payload is taken to repeat the forward payload's amount and expiry). -/
+def outcome (n : NodeCfg) (best : Nat) (hop : NextHop) (h : Htlc) : Outcome :=
+  match admitHop n best hop h with
+  | .error r => .reject r
+  | .ok intercept =>
+    match fwdPendingInfo h.inAmt h.outAmt h.outCltv with
+    | (incomingAmt, outgoingAmt, outgoingCltv) =>
+      if intercept then
+        match interceptedEvent incomingAmt outgoingAmt outgoingCltv with
+        | (inbound, expected, expiry) => .intercepted inbound expected expiry
+      else match hop with
+        | .chan _ => .forward outgoingAmt outgoingCltv
+        | .phantom =>
+          match finalExpiryTooSoon best outgoingCltv with
+          | true => .reject .paymentClaimBuffer
+          | false => .phantomRecv outgoingAmt outgoingCltv
+        | _ => .reject .unknownNextPeer
+
+/-- what the node offers downstream when an intercepted HTLC is released by
+    `forward_intercepted_htlc(intercept_id, .., amt_to_forward_msat)` (generated `forwardIntercepted`; the expiry is
+    the event's) -/
+def releaseIntercepted (o : Outcome) (amtToForward : Nat) : Option (Nat × Nat) :=
+  match o with
+  | .intercepted _ e x => some ((forwardIntercepted e amtToForward).1, x)
+  | _ => none
+
+/-- the downstream offer (amount, expiry) of an outcome; an intercepted HTLC is released at its
+    `expected_outbound_amount_msat` (what LSPS2 and every caller that does not take an extra fee does) -/
+def downstreamOffer (o : Outcome) : Option (Nat × Nat) :=
+  match o with
+  | .forward a c => some (a, c)
+  | .intercepted _ e _ => releaseIntercepted o e
+  | _ => none
+
+/-- one `ChannelConfig` the channel accepts forwards under: the current one or `prev_config` -/
+def _root_.Ldk.FwdGen.ChanView.accepts (c : ChanView) (cfg : Cfg) : Prop := cfg = c.cfg ∨ c.prev = some cfg
+
+/-- `requiredFee` for a generated `Cfg` -/
+def _root_.Ldk.FwdGen.Cfg.fee (cfg : Cfg) (outAmt : Nat) : Option Nat := requiredFee ⟨cfg.feeBase, cfg.feeProp, cfg.cltvDelta⟩ outAmt
 
 end Ldk.Forward
